@@ -108,6 +108,7 @@ func Main(c *run.Ctx) {
 		"distinct key = position × hostile class × accepted/rejected by the front end; oracle = same statement count, same token kinds, same non-literal token texts as for a harmless string of the same front-end class, " +
 		"every statement lexes to completion, every literal that differs decodes (rule A1, and as the server decodes) to the intended value")
 	c.Assume("the database is a scripted driver answering every statement with an empty result (the TraceQL complexity estimate with 2*10^7 in the 'cx' variants); only the statement text is examined")
+	c.Event("hostile strings taken from the reader sources (placeholder-like tokens)", len(dictStrings))
 	c.Assume("a string that selects another planner by a documented front-end rule (empty string, regex that is only a literal, JSON path / template / regex-group structure) is compared with a harmless string of the same class")
 	c.Assume("JSON-quoted languages (LogQL, TraceQL, Pyroscope JSON bodies) cannot carry invalid UTF-8: the user's string is then the string with U+FFFD in place of every offending byte")
 	k := stringsPerPosition(c, len(ps))
@@ -218,7 +219,7 @@ func laneCases(nPos, lane, lanes, k int) int { return len(lanePositions(nPos, la
 var fixedCorpus = func() []string {
 	seen := map[string]bool{}
 	var out []string
-	for _, l := range [][]string{coreStrings, {longStrings[1]}, extraStrings, longStrings} {
+	for _, l := range [][]string{coreStrings, dictStrings, {longStrings[1]}, extraStrings, longStrings} {
 		for _, s := range l {
 			if !seen[s] {
 				seen[s] = true
@@ -231,8 +232,10 @@ var fixedCorpus = func() []string {
 
 var nCore = func() int {
 	seen := map[string]bool{}
-	for _, s := range coreStrings {
-		seen[s] = true
+	for _, l := range [][]string{coreStrings, dictStrings} {
+		for _, s := range l {
+			seen[s] = true
+		}
 	}
 	return len(seen) + 1
 }()
